@@ -999,5 +999,7 @@ CARRIES = {
     # configuration unreadable), an unknown format is refused before anything is opened
     "C18": [":dump_using_format", ":check_valid_dump_format", ":json_indented_dump", ":yaml_dump"],
     "C02": [":yaml_load"],
+    # parse_string / parse_path in jsonnet mode hand the caller's ext_vars dict to jsonnet_load: it is split into new dicts, never written
+    "C08": [":jsonnet_load"],
     "C01": [":dump_using_format", ":check_valid_dump_format", ":yaml_dump", ":yaml_comments_dump", ":json_compact_dump", ":json_indented_dump", ":set_dumper", ":toml_dump", ":get_yaml_default_dumper", "remove_implicit_resolver"],
 }
